@@ -1436,3 +1436,384 @@ part_mgf1(long long cases)
 		free(seed); free(data); free(orig); free(mask);
 	}
 }
+
+/* ================================================================== */
+/* part hdrbg: HMAC_DRBG (SP 800-90A rev.1, 10.1.2), no reseed counter  */
+
+typedef struct { unsigned char K[64], V[64]; const hdesc *h; } ref_hdrbg;
+
+static void
+ref_hdrbg_update(ref_hdrbg *d, const unsigned char *data, size_t len)
+{
+	size_t hl = d->h->hlen;
+	unsigned char sep = 0x00, t[64];
+	ref_hmac3(d->h, d->K, hl, d->V, hl, &sep, 1, data, len, t);
+	memcpy(d->K, t, hl);
+	ref_hmac(d->h, d->K, hl, d->V, hl, t);
+	memcpy(d->V, t, hl);
+	if (len == 0) return;
+	sep = 0x01;
+	ref_hmac3(d->h, d->K, hl, d->V, hl, &sep, 1, data, len, t);
+	memcpy(d->K, t, hl);
+	ref_hmac(d->h, d->K, hl, d->V, hl, t);
+	memcpy(d->V, t, hl);
+}
+
+static void
+ref_hdrbg_init(ref_hdrbg *d, const hdesc *h, const unsigned char *seed, size_t len)
+{
+	d->h = h;
+	memset(d->K, 0x00, sizeof d->K);
+	memset(d->V, 0x01, sizeof d->V);
+	ref_hdrbg_update(d, seed, len);
+}
+
+static void
+ref_hdrbg_generate(ref_hdrbg *d, unsigned char *out, size_t len)
+{
+	size_t hl = d->h->hlen;
+	unsigned char t[64];
+	while (len > 0) {
+		size_t c = len < hl ? len : hl;
+		ref_hmac(d->h, d->K, hl, d->V, hl, t);
+		memcpy(d->V, t, hl);
+		memcpy(out, t, c);
+		out += c; len -= c;
+	}
+	ref_hdrbg_update(d, NULL, 0);
+}
+
+static void
+part_hdrbg(long long cases)
+{
+	long long idx;
+	int nh;
+
+	hmac_probe();
+	nh = g_hmac_nh;
+	for (idx = 0; idx < cases; idx ++) {
+		vf_rng r;
+		const hdesc *h;
+		br_hmac_drbg_context *dc, *dc2;
+		ref_hdrbg rd;
+		unsigned char *seed;
+		size_t slen;
+		int nops, j, viavt;
+		char trace[400];
+		size_t tp = 0;
+
+		if (!MINE()) continue;
+		case_rng(&r, PART_HDRBG, idx);
+		h = &HD[idx % nh];
+		slen = (idx % 13 == 0) ? 0 : vf_below(&r, 120);
+		seed = xmalloc(slen); vf_bytes(&r, seed, slen);
+		dc = xmalloc(sizeof *dc); dc2 = xmalloc(sizeof *dc2);
+		memset(dc, 0x37, sizeof *dc);
+		viavt = (int)(idx & 1);
+		if (viavt) br_hmac_drbg_vtable.init(&dc->vtable, h->vt, seed, slen);
+		else br_hmac_drbg_init(dc, h->vt, seed, slen);
+		br_hmac_drbg_init(dc2, h->vt, seed, slen);
+		chki(M_HDRBG, h->name, br_hmac_drbg_get_hash(dc) == h->vt, 1, "get_hash");
+		ref_hdrbg_init(&rd, h, seed, slen);
+		nops = 1 + (int)vf_below(&r, 6);
+		trace[0] = 0;
+		for (j = 0; j < nops; j ++) {
+			if (vf_below(&r, 3) == 0) {
+				size_t ul = (vf_below(&r, 4) == 0) ? 0 : vf_below(&r, 120);
+				unsigned char *u = xmalloc(ul);
+				vf_bytes(&r, u, ul);
+				if (viavt) dc->vtable->update(&dc->vtable, u, ul); else br_hmac_drbg_update(dc, u, ul);
+				br_hmac_drbg_update(dc2, u, ul);
+				ref_hdrbg_update(&rd, u, ul);
+				tp += (size_t)snprintf(trace + tp, sizeof trace - tp, "U%d:%s,", (int)ul, vf_hexs(u, ul > 8 ? 8 : ul));
+				free(u);
+			} else {
+				size_t gl = (vf_below(&r, 3) == 0) ? vf_below(&r, 70) : vf_below(&r, 1001);
+				unsigned char *o = xmalloc(gl), *o2 = xmalloc(gl), *e = xmalloc(gl);
+				memset(o, 0x19, gl);
+				if (viavt) dc->vtable->generate(&dc->vtable, o, gl); else br_hmac_drbg_generate(dc, o, gl);
+				br_hmac_drbg_generate(dc2, o2, gl);
+				ref_hdrbg_generate(&rd, e, gl);
+				tp += (size_t)snprintf(trace + tp, sizeof trace - tp, "G%d,", (int)gl);
+				chk(M_HDRBG, h->name, o, e, gl, "h=%s seed=%s ops=%s (op %d)", h->name, vf_hexs(seed, slen), trace, j);
+				chk(M_DET, "hmac_drbg", o2, o, gl, "h=%s second instance differs", h->name);
+				if (idx < 2 && gl > 0) vf_sample("{\"part\":\"hdrbg\",\"hash\":\"%s\",\"seedlen\":%d,\"ops\":\"%s\",\"out\":\"%s\"}", h->name, (int)slen, trace, vf_hexs(o, gl > 16 ? 16 : gl));
+				free(o); free(o2); free(e);
+			}
+			if (tp > sizeof trace - 40) tp = sizeof trace - 40;
+		}
+		vf_distinct("config", "hdrbg/%s", h->name);
+		vf_stat("cases", 1);
+		free(seed); free(dc); free(dc2);
+	}
+}
+
+/* ================================================================== */
+/* part adrbg: AESCTR_DRBG as described in bearssl_rand.h               */
+
+static void
+ref_aes(const unsigned char *key, size_t klen, const unsigned char *in, unsigned char *out)
+{
+	EVP_CIPHER_CTX *c = EVP_CIPHER_CTX_new();
+	int ol = 0;
+	unsigned char tmp[32];
+	if (!c || !EVP_EncryptInit_ex(c, klen == 16 ? EVP_aes_128_ecb() : EVP_aes_256_ecb(), NULL, key, NULL)
+		|| !EVP_CIPHER_CTX_set_padding(c, 0)
+		|| !EVP_EncryptUpdate(c, tmp, &ol, in, 16) || ol != 16) hfail("evp-aes");
+	memcpy(out, tmp, 16);
+	EVP_CIPHER_CTX_free(c);
+}
+
+typedef struct { unsigned char K[16]; uint32_t cc; EVP_CIPHER_CTX *ecb; } ref_adrbg;
+static unsigned char g_hinit = 0x5A;   /* calibrated: the header leaves the constant open */
+
+static void
+ref_adrbg_rekey(ref_adrbg *d)
+{
+	if (!d->ecb) d->ecb = EVP_CIPHER_CTX_new();
+	if (!d->ecb || !EVP_EncryptInit_ex(d->ecb, EVP_aes_128_ecb(), NULL, d->K, NULL)
+		|| !EVP_CIPHER_CTX_set_padding(d->ecb, 0)) hfail("evp-aes128");
+	d->cc = 0;
+}
+
+static void
+ref_adrbg_update(ref_adrbg *d, const unsigned char *seed, size_t len)
+{
+	unsigned char s[16], G[16], H[16], ones[16], m[16], key[32], x[16], eg[16], eh[16];
+	int first = 1, i;
+	memset(ones, 0xFF, 16);
+	ref_aes(d->K, 16, ones, s);
+	memset(G, 0xB6, 16);
+	memset(H, g_hinit, 16);
+	for (;;) {
+		if (first) { memcpy(m, s, 16); first = 0; }
+		else {
+			size_t c;
+			if (len == 0) break;
+			c = len < 16 ? len : 16;
+			memset(m, 0, 16);
+			memcpy(m, seed, c);
+			seed += c; len -= c;
+		}
+		memcpy(key, H, 16); memcpy(key + 16, m, 16);
+		ref_aes(key, 32, G, eg);
+		memcpy(x, G, 16); x[0] ^= 0x01;
+		ref_aes(key, 32, x, eh);
+		for (i = 0; i < 16; i ++) { H[i] = eh[i] ^ x[i]; }
+		for (i = 0; i < 16; i ++) { G[i] = eg[i] ^ G[i]; }
+	}
+	memcpy(d->K, H, 16);
+	ref_adrbg_rekey(d);
+}
+
+static void
+ref_adrbg_init(ref_adrbg *d, const unsigned char *seed, size_t len)
+{
+	memset(d->K, 0, 16);
+	d->ecb = NULL;
+	ref_adrbg_rekey(d);
+	ref_adrbg_update(d, seed, len);
+}
+
+static void
+ref_adrbg_generate(ref_adrbg *d, unsigned char *out, size_t len)
+{
+	while (len > 0) {
+		unsigned char blk[16], ks[16];
+		size_t c = len < 16 ? len : 16;
+		int ol = 0;
+		memset(blk, 0, 12);
+		blk[12] = (unsigned char)(d->cc >> 24); blk[13] = (unsigned char)(d->cc >> 16);
+		blk[14] = (unsigned char)(d->cc >> 8); blk[15] = (unsigned char)d->cc;
+		if (!EVP_EncryptUpdate(d->ecb, ks, &ol, blk, 16) || ol != 16) hfail("evp-aes-run");
+		memcpy(out, ks, c);
+		out += c; len -= c;
+		d->cc ++;
+		if (d->cc == 32768) ref_adrbg_update(d, NULL, 0);
+	}
+}
+
+static void
+part_adrbg(long long cases, long long bigcases)
+{
+	const br_block_ctr_class *impl[5];
+	const char *iname[5];
+	int ni = 0, i;
+	long long idx;
+
+	impl[ni] = &br_aes_big_ctr_vtable; iname[ni ++] = "big";
+	impl[ni] = &br_aes_small_ctr_vtable; iname[ni ++] = "small";
+	impl[ni] = &br_aes_ct_ctr_vtable; iname[ni ++] = "ct";
+	impl[ni] = &br_aes_ct64_ctr_vtable; iname[ni ++] = "ct64";
+	if (br_aes_x86ni_ctr_get_vtable() != NULL) { impl[ni] = br_aes_x86ni_ctr_get_vtable(); iname[ni ++] = "x86ni"; }
+	vf_max("aesctr_impls", ni);
+
+	/* calibration of the one constant the header does not fix (the comment in
+	   aesctr_drbg.c says A5, the code uses 5A): which one reproduces the output? */
+	{
+		br_aesctr_drbg_context dc;
+		ref_adrbg rd;
+		unsigned char o[16], e[16];
+		int found = 0;
+		br_aesctr_drbg_init(&dc, impl[0], NULL, 0);
+		br_aesctr_drbg_generate(&dc, o, 16);
+		g_hinit = 0xA5; ref_adrbg_init(&rd, NULL, 0); ref_adrbg_generate(&rd, e, 16);
+		if (memcmp(o, e, 16) == 0) { found = 1; vf_distinct("aesctr_hinit", "A5"); }
+		else {
+			g_hinit = 0x5A; ref_adrbg_init(&rd, NULL, 0); ref_adrbg_generate(&rd, e, 16);
+			if (memcmp(o, e, 16) == 0) { found = 1; vf_distinct("aesctr_hinit", "5A"); }
+		}
+		if (!found) {
+			ncmp[M_ADRBG] ++;
+			vf_viol("C13:aesctr_drbg:calibration", "output for the empty seed matches the documented construction with neither H_init=A5 nor 5A", "part=adrbg got=%s", vf_hexs(o, 16));
+		}
+	}
+
+	for (idx = 0; idx < cases + bigcases; idx ++) {
+		vf_rng r;
+		br_aesctr_drbg_context *dc[5];
+		ref_adrbg rd;
+		unsigned char *seed;
+		size_t slen;
+		int nops, j, big = idx >= cases;
+		char trace[400];
+		size_t tp = 0;
+
+		if (!MINE()) continue;
+		case_rng(&r, PART_ADRBG, idx);
+		slen = (idx % 11 == 0) ? 0 : ((idx % 5 == 0) ? 16 * (1 + vf_below(&r, 4)) : vf_below(&r, 100));
+		seed = xmalloc(slen); vf_bytes(&r, seed, slen);
+		for (i = 0; i < ni; i ++) {
+			dc[i] = xmalloc(sizeof **dc);
+			memset(dc[i], 0x4D, sizeof **dc);
+			if ((idx + i) & 1) br_aesctr_drbg_vtable.init(&dc[i]->vtable, impl[i], slen ? seed : NULL, slen);
+			else br_aesctr_drbg_init(dc[i], impl[i], slen ? seed : NULL, slen);
+		}
+		ref_adrbg_init(&rd, seed, slen);
+		nops = 1 + (int)vf_below(&r, 6);
+		trace[0] = 0;
+		for (j = 0; j < nops; j ++) {
+			if (vf_below(&r, 3) == 0) {
+				size_t ul = (vf_below(&r, 4) == 0) ? 0 : vf_below(&r, 100);
+				unsigned char *u = xmalloc(ul);
+				vf_bytes(&r, u, ul);
+				for (i = 0; i < ni; i ++) {
+					if ((idx + i) & 1) dc[i]->vtable->update(&dc[i]->vtable, ul ? u : NULL, ul);
+					else br_aesctr_drbg_update(dc[i], ul ? u : NULL, ul);
+				}
+				ref_adrbg_update(&rd, u, ul);
+				tp += (size_t)snprintf(trace + tp, sizeof trace - tp, "U%d:%s,", (int)ul, vf_hexs(u, ul > 8 ? 8 : ul));
+				free(u);
+			} else {
+				size_t gl = (vf_below(&r, 3) == 0) ? vf_below(&r, 70) : vf_below(&r, 1001);
+				unsigned char *o0 = NULL, *e;
+				if (big && j == 0) gl = 32768 * 16 - vf_below(&r, 64) + vf_below(&r, 2) * (16 + vf_below(&r, 200));
+				if (big && j == 1) gl = 70000 + vf_below(&r, 3000);
+				e = xmalloc(gl);
+				ref_adrbg_generate(&rd, e, gl);
+				tp += (size_t)snprintf(trace + tp, sizeof trace - tp, "G%d,", (int)gl);
+				for (i = 0; i < ni; i ++) {
+					unsigned char *o = xmalloc(gl);
+					memset(o, 0x19, gl);
+					if ((idx + i) & 1) dc[i]->vtable->generate(&dc[i]->vtable, o, gl);
+					else br_aesctr_drbg_generate(dc[i], o, gl);
+					if (gl > 64) {
+						/* report only the first differing 64-byte window */
+						size_t k = 0;
+						while (k + 64 < gl && memcmp(o + k, e + k, 64) == 0) k += 64;
+						chk(M_ADRBG, iname[i], o + k, e + k, gl - k > 64 ? 64 : gl - k, "impl=%s seed=%s ops=%s (op %d, offset %d)", iname[i], vf_hexs(seed, slen), trace, j, (int)k);
+						if (memcmp(o, e, gl) != 0 && memcmp(o + k, e + k, gl - k > 64 ? 64 : gl - k) == 0) hfail("window");
+					} else {
+						chk(M_ADRBG, iname[i], o, e, gl, "impl=%s seed=%s ops=%s (op %d)", iname[i], vf_hexs(seed, slen), trace, j);
+					}
+					if (i == 0) o0 = o;
+					else {
+						ncmp[M_ADRBG_X] ++;
+						if (memcmp(o, o0, gl) != 0) chk(M_ADRBG_X, iname[i], o, o0, gl > 64 ? 64 : gl, "impl=%s differs from big; seed=%s ops=%s", iname[i], vf_hexs(seed, slen), trace);
+						free(o);
+					}
+				}
+				if (idx < 2 && gl > 0) vf_sample("{\"part\":\"adrbg\",\"seedlen\":%d,\"ops\":\"%s\",\"out\":\"%s\"}", (int)slen, trace, vf_hexs(o0, gl > 16 ? 16 : gl));
+				free(o0); free(e);
+			}
+			if (tp > sizeof trace - 40) tp = sizeof trace - 40;
+		}
+		vf_distinct("config", big ? "adrbg/forced-update" : "adrbg/short");
+		vf_stat("cases", 1);
+		if (big) vf_stat("adrbg_forced_update_cases", 1);
+		EVP_CIPHER_CTX_free(rd.ecb);
+		free(seed);
+		for (i = 0; i < ni; i ++) free(dc[i]);
+	}
+	for (i = 0; i < ni; i ++) vf_distinct("config", "adrbg/impl-%s", iname[i]);
+}
+
+/* ================================================================== */
+/* part misc: OIDs and digest sizes                                    */
+
+static void
+part_misc(void)
+{
+	static const int nid[7] = { 0, NID_md5, NID_sha1, NID_sha224, NID_sha256, NID_sha384, NID_sha512 };
+	int id;
+
+	if (g_worker != 0) return;
+	for (id = 1; id <= 6; id ++) {
+		const ASN1_OBJECT *ob = OBJ_nid2obj(nid[id]);
+		size_t len = 12345;
+		const unsigned char *oid = br_digest_OID(id, &len);
+		if (!ob) hfail("obj");
+		chki(M_OID, HD[id - 1].name, (long long)len, (long long)OBJ_length(ob), "oid-length id=%d", id);
+		if (oid && len == OBJ_length(ob)) chk(M_OID, HD[id - 1].name, oid, OBJ_get0_data(ob), len, "oid-bytes id=%d", id);
+		else chki(M_OID, HD[id - 1].name, oid != NULL, 1, "oid-null id=%d", id);
+		chki(M_OID, HD[id - 1].name, (long long)br_digest_size_by_ID(id), (long long)HD[id - 1].hlen, "size-by-id id=%d", id);
+		vf_distinct("config", "misc/oid/%s", HD[id - 1].name);
+	}
+	{
+		size_t len = 12345;
+		const unsigned char *oid = br_digest_OID(br_md5sha1_ID, &len);
+		chki(M_OID, "md5sha1", oid == NULL && len == 0, 1, "md5sha1 has no OID");
+		chki(M_OID, "md5sha1", (long long)br_digest_size_by_ID(br_md5sha1_ID), 36, "size-by-id md5sha1");
+		len = 12345;
+		oid = br_digest_OID(7, &len);
+		chki(M_OID, "unknown", oid == NULL && len == 0, 1, "id 7 has no OID");
+	}
+	vf_stat("cases", 8);
+}
+
+/* ================================================================== */
+
+int
+main(int argc, char **argv)
+{
+	long long cases, nexh, k;
+
+	g_part = vf_arg(argc, argv, "--part", "hash");
+	g_seed = vf_argi(argc, argv, "--seed", 1);
+	g_worker = (int)vf_argi(argc, argv, "--worker", 0);
+	g_nworkers = (int)vf_argi(argc, argv, "--nworkers", 1);
+	cases = vf_argi(argc, argv, "--cases", 100);
+	nexh = vf_argi(argc, argv, "--nexh", 64);
+	k = vf_argi(argc, argv, "--k", 2);
+	if (g_nworkers < 1 || g_worker < 0 || g_worker >= g_nworkers) hfail("args");
+	hd_setup();
+
+	if (!strcmp(g_part, "hash")) part_hash(nexh, k);
+	else if (!strcmp(g_part, "state")) part_state(k < 1 ? 1 : k);
+	else if (!strcmp(g_part, "inject")) part_inject(cases);
+	else if (!strcmp(g_part, "multi")) part_multi(nexh, cases, (int)k);
+	else if (!strcmp(g_part, "shake")) part_shake(cases, (int)k);
+	else if (!strcmp(g_part, "hmac")) part_hmac(cases);
+	else if (!strcmp(g_part, "hmacct")) part_hmacct(nexh, cases, (int)k);
+	else if (!strcmp(g_part, "prf")) part_prf(cases);
+	else if (!strcmp(g_part, "hkdf")) part_hkdf(cases);
+	else if (!strcmp(g_part, "mgf1")) part_mgf1(cases);
+	else if (!strcmp(g_part, "hdrbg")) part_hdrbg(cases);
+	else if (!strcmp(g_part, "adrbg")) part_adrbg(cases, k);
+	else if (!strcmp(g_part, "misc")) part_misc();
+	else hfail("unknown-part");
+
+	flush_counters();
+	vf_done();
+	return 0;
+}
